@@ -223,6 +223,25 @@ def run_example(ex):
                 out_list = ml
                 out_proj = t["proj"]
             last = (ml, o["morphemes"], t["subset"], t["proj"], text)
+        elif kind == "tokenize_rejected":
+            # an input beyond the 49,149 byte limit: both sides must refuse it, and the tokenizer must
+            # be as usable afterwards as before (mode override restored)
+            t = toks[op[1] % len(toks)]
+            text = "あ" * 16384 + "x" * (op[2] % 7)
+            kw = {}
+            if op[3]:
+                kw["mode"] = MODES[op[3]]
+            try:
+                t["tok"].tokenize(text, **kw)
+                raise Violation("oversized-accepted", "tokenize() accepted %d bytes" % len(text.encode("utf-8")))
+            except Violation:
+                raise
+            except Exception:
+                pass
+            if t["tok"].mode != MODES[t["mode"]]:
+                raise Violation("mode-leak", "a failed call with a mode override changed the tokenizer's mode to %s" % t["tok"].mode)
+            special_before = True
+            last = None
         elif kind == "split":
             if last is None or len(last[0]) == 0:
                 continue
@@ -281,6 +300,7 @@ def example_strategy():
             st.tuples(st.just("create"), st.one_of(st.none(), modes), fields, st.sampled_from(PROJECTIONS)),
             st.tuples(st.just("tokenize"), st.integers(0, 5), t, st.one_of(st.none(), st.none(), modes), st.booleans(), st.booleans()),
             st.tuples(st.just("tokenize"), st.integers(0, 5), t, st.one_of(st.none(), st.none(), modes), st.booleans(), st.booleans()),
+            st.tuples(st.just("tokenize_rejected"), st.integers(0, 5), st.integers(0, 6), st.one_of(st.none(), modes)),
             st.tuples(st.just("split"), st.integers(0, 50), st.sampled_from(["A", "B"]), st.booleans(), st.one_of(st.none(), st.booleans()), st.booleans()),
             st.tuples(st.just("lookup"), st.one_of(st.sampled_from(WORLDS[world]["keys"]), t), st.booleans()),
         )
